@@ -277,8 +277,11 @@ def open_findings(pid):
 def write_evidence(pid, tier, level, coverage, wall, violations=0, assumptions=None):
     ev = {"property_id": pid, "tier": tier, "seed": seed(), "level": level, "coverage": coverage,
           "assumptions": assumptions or [], "wall_s": round(wall, 2), "violations": violations}
-    os.makedirs(os.path.join(VERIF, "evidence"), exist_ok=True)
-    with open(os.path.join(VERIF, "evidence", pid + ".json"), "w") as f:
+    # evidence describes runs against /repo itself; experiments on a scratch copy (VERIF_REPO) and runs that are told
+    # to stop at the first violations (VERIF_MAX_VIOL, seeded-defect runs) leave the evidence directory alone
+    evdir = "evidence" if os.path.abspath(REPO) == "/repo" and not os.environ.get("VERIF_MAX_VIOL") else os.path.join("out", "evidence-scratch")
+    os.makedirs(os.path.join(VERIF, evdir), exist_ok=True)
+    with open(os.path.join(VERIF, evdir, pid + ".json"), "w") as f:
         json.dump(ev, f, indent=1)
     return ev
 
